@@ -651,6 +651,43 @@ pub fn shared_chance_fan(rng: &mut Rng, k: usize) -> HNode {
     )
 }
 
+/// Like [shared_chance_fan] but with a private second move of player one between the hidden first
+/// move and the shared chance node. With k < 3 x threads the frontier search of every parallel
+/// solver stops among the k second-move nodes (they are player one's, so external sampling with
+/// player one updating expands all of them, too), and the tasks that run at once then all draw at
+/// the one shared chance infoset and the one blind infoset of player two *below* the frontier
+/// (in [shared_chance_fan] an external-sampling pass draws both during the single-threaded
+/// frontier search).
+pub fn shared_chance_fan_below(rng: &mut Rng, k: usize, small: bool) -> HNode {
+    let b = if small { 2 } else { rng.range(2, 3) };
+    let deep = !small && rng.chance(0.5);
+    let w = *rng.pick(&[1.0, 3.0]);
+    let mut leaf = |rng: &mut Rng| term((rng.range(0, 16) as f64 - 8.0) / 4.0);
+    let mut below_blind = |rng: &mut Rng, a: usize, c: usize| -> HNode {
+        if !deep {
+            return leaf(rng);
+        }
+        player(0, format!("again{}_{}", a, c), (0..2).map(|m| (format!("m{}", m), leaf(rng))).collect())
+    };
+    player(
+        0,
+        "fan",
+        (0..k)
+            .map(|a| {
+                let pre = (0..2)
+                    .map(|c| {
+                        let outs = (0..2)
+                            .map(|o| (if o == 0 { 1.0 } else { w }, player(1, "blind", (0..b).map(|j| (format!("b{}", j), below_blind(rng, a, c))).collect())))
+                            .collect();
+                        (format!("c{}", c), chance(Some("coin".into()), outs))
+                    })
+                    .collect();
+                (format!("a{}", a), player(0, format!("pre{}", a), pre))
+            })
+            .collect(),
+    )
+}
+
 pub fn structured(rng: &mut Rng, which: usize) -> (String, HNode) {
     match which % 18 {
         0 => ("matching_pennies".into(), matching_pennies()),
